@@ -65,6 +65,12 @@ func (x *Exec) lazyGet(l *lazyHeap, key string, sort *smt.Sort) *smt.Term {
 	if immutableGlobals[strings.SplitN(key, "#", 2)[0]] {
 		return x.B.Var(key, sort)
 	}
+	if strings.HasPrefix(key, "glob:") && x.hasInitial {
+		x.prepareInitial()
+		if v, ok := x.initialValue(key); ok && v.S == sort {
+			return v
+		}
+	}
 	if l.a != nil {
 		return x.B.Ite(l.cond, x.lazyGet(l.a, key, sort), x.lazyGet(l.b, key, sort))
 	}
